@@ -269,6 +269,37 @@ def long_exponent_reqs(rng, tier):
                     reqs.append("C05 u.plain_modpow %s %s %s" % (wu(b), wu(e), wu(m)))
     return reqs
 
+def zero_residue_reqs(rng, tier):
+    """b^e ≡ 0 (mod m) with b not a multiple of m: non-square-free moduli of special FORM (2^k − 1 with 6 | k, 2^k + 1
+    with k an odd multiple of 3, B^j − 1, q²·c) and b = m / p for a prime p with p² | m — a special-form reduction that
+    folds instead of dividing tends to return m itself instead of 0 (C05-z1: Mersenne fast path), and Montgomery's last
+    conditional subtraction is exercised with the value exactly m (C05-w1).  Also results 1 and m − 1 at the same moduli."""
+    reqs = []
+    mods = []
+    for k in (6, 12, 60, 126, 192, 252, 384, 1020):
+        mods.append(((1 << k) - 1, 3))                 # 9 | 2^6 − 1 | 2^k − 1
+    for k in (3, 9, 63, 129, 195, 1029):
+        mods.append(((1 << k) + 1, 3))                 # 9 | 2^3 + 1 | 2^k + 1 for odd k/3
+    for j in (1, 2, 3, 6):
+        mods.append((B ** j - 1, 3)); mods.append((B ** j - 1, 5) if (B ** j - 1) % 25 == 0 else (B ** j - 1, 3))
+    for _ in range(6 if tier != "thorough" else 30):
+        q = rng.choice([3, 5, 7, (1 << 40) + 15, rng.randrange(3, B) | 1, (rng.randrange(B, B * B) | 1)])
+        c = rng.choice([1, 1, 2, 4, rng.randrange(1, B)])
+        mods.append((q * q * c, q))
+    for m, p in mods:
+        if m < 2 or m % (p * p):
+            continue
+        b = m // p
+        for e in (2, 3, 5, 16, (1 << 64) + 1):
+            for bb in (b, b * 2 % m or b, (m - b)):
+                reqs.append("C05 u.modpow %s %s %s" % (wu(bb), wu(e), wu(m)))
+            reqs.append("C05 i.modpow %s %s %s" % (wi(rng.choice([1, -1]) * b), wi(e), wi(rng.choice([1, -1]) * m)))
+        reqs.append("C05 u.modpow %s %s %s" % (wu(m - 1), wu(2), wu(m)))      # 1
+        reqs.append("C05 u.modpow %s %s %s" % (wu(m - 1), wu(3), wu(m)))      # m − 1
+        reqs.append("C05 u.modpow %s %s %s" % (wu(m), wu(5), wu(m)))          # 0 through the reduction of the base
+        reqs.append("C05 u.modpow %s %s %s" % (wu(m + 1), wu(7), wu(m)))      # 1
+    return reqs
+
 def cf_modinv_reqs(rng, tier):
     """modinv on (value, modulus) pairs constructed from their Euclidean quotient sequence (genlib.cf_pair): long runs of
     tiny quotients with huge quotients in the middle, 2 … 45 digits (a Lehmer-style extended gcd batches single-word
@@ -346,6 +377,7 @@ def gen(rng, tier):
     reqs += nilpotent_reqs(rng, tier)
     reqs += long_exponent_reqs(rng, tier)
     reqs += cf_modinv_reqs(rng, tier)
+    reqs += zero_residue_reqs(rng, tier)
     # inv_mod_alt
     for b in [1, 3, 5, 7, MAX, MAX - 2, (1 << 63) + 1, (1 << 32) + 1, (1 << 32) - 1, (1 << 63) - 1, 0x5555555555555555]:
         reqs.append("C05 raw.inv_mod_alt %x" % b)
